@@ -32,8 +32,8 @@ E = frozenset()
 
 FN_TRAIT_CALLS = ("core::ops::function::FnOnce::call_once", "core::ops::function::FnMut::call_mut", "core::ops::function::Fn::call")
 ENUM_IDX = {"core::option::Option": {"None": "0", "Some": "1"}, "core::result::Result": {"Ok": "0", "Err": "1"}}
-CUR_KINDS = ("lex", "tk", "tkd", "raw")     # abstract values derived from the current token: stale after a bump
-TRANSPARENT = ("fn", "closure", "kid", "ts", "kidarr", "bstr", "lex", "tk", "tkd", "raw", "snap")
+CUR_KINDS = ("lex", "tk", "tkd", "raw", "buf")     # abstract values derived from the current token: stale after a bump
+TRANSPARENT = ("fn", "closure", "kid", "ts", "kidarr", "bstr", "buf", "lex", "tk", "tkd", "raw", "snap")
 
 
 class E7Error(Exception):
@@ -164,14 +164,17 @@ class Domain:
             raise E7Error("lexeme kind enum not found")
         self.lex_idx = {v["name"]: i for i, v in enumerate(la["variants"])}
         self.nk = len(self.lex_idx)
-        if self.nk > 128 or self.eof_variant not in self.lex_idx:
+        if (self.nk > 128 and self.tokenset_ty) or self.eof_variant not in self.lex_idx:
             raise E7Error("lexeme kind enum has an unexpected shape")
+        self.buffer_field = spec.get("buffer_field")
         self.NE = self.lex_idx[self.eof_variant]
         self.ALL = frozenset(range(self.nk))
         self.EOF_ONLY = self.ALL - {self.NE}
         # preimage of every tree-token kind under Kind::to_token_kind (read off its MIR: one switch, one aggregate per arm)
         self.pre = defaultdict(set)
         tk = [k for k, kind in self.prims.items() if kind == "to_token_kind"]
+        if not tk and not self.ast_kind_adt:
+            return      # a domain whose tokens already are tree kinds (the rewriter)
         if len(tk) != 1:
             raise E7Error("to_token_kind primitive missing")
         tb = P.bodies[tk[0]]
@@ -317,6 +320,10 @@ class Analysis:
             if len(fields) == 1 and isinstance(fields[0], str) and fields[0].startswith("f:") and fields[0].endswith("{closure}"):
                 idx = int(fields[0].split(":")[1])
                 return dict(ctx[1]).get(("u", idx))
+        if self.dom.buffer_field and any(isinstance(e, str) and e.startswith("f:" + self.dom.buffer_field + ":") for e in pl[1:]):
+            body = self.P.bodies[ctx[0]]
+            if self.dom.in_domain_ty(body["locals"][pl[0]]):
+                return ("buf",)
         # field projections of tracked values
         v = st.val.get(pl[0])
         fields = [e for e in pl[1:] if e != "*"]
@@ -488,15 +495,19 @@ class Analysis:
             return ("prim", "is_some" if name.endswith("is_some") else "is_none")
         if k["fn"] in ("core::convert::Into::into", "core::convert::From::from") and t.get("dty") == self.dom.tokenset_ty:
             return ("prim", "ts_from")
+        if self.dom.buffer_field and re.match(r"core::slice::\{impl#\d+\}::is_empty$", name):
+            v = self.op_val(ctx, st, t["a"][0])
+            if v is not None and v[0] == "buf":
+                return ("prim", "buf_is_empty")
         if k["fn"] in ("core::cmp::PartialEq::eq", "core::cmp::PartialEq::ne"):
             return ("prim", "eq" if k["fn"].endswith("::eq") else "ne")
         if name in self.P.bodies and not k.get("virt"):
             env = []
             for i, a in enumerate(t["a"]):
                 v = self.op_val(ctx, st, a)
-                if v is not None and v[0] in ("fn", "closure", "kid", "ts"):
+                if v is not None and v[0] in ("fn", "closure", "kid", "ts", "tk"):
                     env.append((("p", i + 1), v))
-            if self.relevant(name) or any(v[0] in ("fn", "closure") for _, v in env):
+            if self.relevant(name) or any(v[0] in ("fn", "closure", "tk") for _, v in env):
                 return ("ctx", (name, tuple(env)))
             return ("nop", name)
         return ("ext", name)
@@ -585,7 +596,7 @@ class Analysis:
                     st.bumped(E)
                 else:
                     if st.w0 is not None:
-                        if NE in st.w0:
+                        if NE in st.w0 or "NONEMPTY" in st.w0:
                             st.w0 = None
                         else:
                             st.w0 = EOF_ONLY   # nothing consumed => the cursor was, and is, at EOF
@@ -644,6 +655,18 @@ class Analysis:
                 ci = const_int(a[1])
                 if ci is not None:
                     new_val = ("lex", int(ci))
+            elif data == "nth_kind":
+                ci = const_int(a[1])
+                if ci is not None:
+                    new_val = ("tk", int(ci))
+            elif data == "nop":
+                pass
+            elif data == "buf_is_empty":
+                if st.w0 is not None:
+                    # an empty buffer has no non-trivia item either
+                    new_cond = ({"1": (st.w0 | EOF_ONLY, st.w1), "0": add0({"NONEMPTY"})}, DEAD)
+                else:
+                    new_cond = ({"1": st.base(), "0": st.base()}, DEAD)
             elif data == "nth_raw":
                 ci = const_int(a[1])
                 if ci is not None:
@@ -1147,61 +1170,88 @@ def check_exception_witness(P, w):
     return True, "ok"
 
 
+def g1_domains(tables):
+    return [(name, spec) for name, spec in sorted(tables.get("e7_tables", {}).items()) if isinstance(spec, dict) and "type_marker" in spec]
+
+
+def g1_covers(P, tables):
+    """predicate: is this function's every loop decided by G1?  (functions of a G1 domain, except the domain's primitives,
+    whose bodies G1 treats as axioms - their loops stay in the X10 census)"""
+    doms = []
+    for name, spec in g1_domains(tables):
+        dom = Domain(P, spec)
+        doms.append((Analysis(P, dom), set(dom.prims)))
+
+    def covers(fn):
+        for A, prims in doms:
+            if A.relevant_or_closure(fn):
+                k = fn
+                while k:
+                    if k in prims:
+                        return False
+                    k = P.bodies[k].get("parent") if k in P.bodies else None
+                return True
+        return False
+    return covers
+
+
 def rule_g1(P, tables):
     from common import norm_fn
-    spec = tables.get("e7_tables", {}).get("parser")
-    if not spec:
-        raise E7Error("tables/e7_tables.json: parser domain missing")
-    A, agg = run(P, spec)
-    names = loop_ordinals(agg)
     findings, obl, samples = [], [], []
-    exceptions = spec.get("loop_exceptions", [])
-    used = set()
-    live = A.live_contexts()
-    n_iter = 0
-    for (fn, h), e in sorted(agg.items()):
-        nm = f"{norm_fn(fn)}#loop{names[(fn, h)]}"
-        if e["iter"]:
-            n_iter += 1
-        bad = e["bad"]
-        status = "consumes a lexeme on every trip" if not e["iter"] else "driven by a std iterator"
-        ok = True
-        excused = []
-        for b in bad:
-            calls = path_calls(b["path"])
-            ex = next((x for i, x in enumerate(exceptions) if x["fn"] == norm_fn(fn) and x["calls"] == calls), None)
-            if ex is not None:
-                wok, why = check_exception_witness(P, ex["witness"])
-                if wok:
-                    used.add(exceptions.index(ex))
-                    excused.append(ex)
+    stats = {}
+    if not g1_domains(tables):
+        raise E7Error("tables/e7_tables.json: no domain")
+    for dname, spec in g1_domains(tables):
+        A, agg = run(P, spec)
+        names = loop_ordinals(agg)
+        exceptions = spec.get("loop_exceptions", [])
+        used = set()
+        live = A.live_contexts()
+        n_iter = 0
+        for (fn, h), e in sorted(agg.items()):
+            nm = f"{norm_fn(fn)}#loop{names[(fn, h)]}"
+            if e["iter"]:
+                n_iter += 1
+            bad = e["bad"]
+            status = "consumes a lexeme on every trip" if not e["iter"] else "driven by a std iterator"
+            ok = True
+            excused = []
+            for b in bad:
+                calls = path_calls(b["path"])
+                ex = next((x for i, x in enumerate(exceptions) if x["fn"] == norm_fn(fn) and x["calls"] == calls), None)
+                if ex is not None:
+                    wok, why = check_exception_witness(P, ex["witness"])
+                    if wok:
+                        used.add(exceptions.index(ex))
+                        excused.append(ex)
+                        continue
+                    findings.append({"rule": "G1", "key": f"G1|witness|{norm_fn(fn)}|{'>'.join(calls)}",
+                                     "msg": f"the recorded reason why {nm} makes progress no longer holds: {why}", "loc": P.site_loc(fn, e["line"]), "detail": {}})
+                    ok = False
                     continue
-                findings.append({"rule": "G1", "key": f"G1|witness|{norm_fn(fn)}|{'>'.join(calls)}",
-                                 "msg": f"the recorded reason why {nm} makes progress no longer holds: {why}", "loc": P.site_loc(fn, e["line"]), "detail": {}})
                 ok = False
-                continue
-            ok = False
-            findings.append({"rule": "G1", "key": f"G1|{norm_fn(fn)}|{'>'.join(calls)}",
-                             "msg": f"parser loop {nm} can go round without consuming a lexeme (no bump on the path {' -> '.join(b['path'] or [])}; "
-                                    f"analysed as {b['ctx'][:160]}): on an input that takes this path forever the parser never terminates",
-                             "loc": P.site_loc(fn, e["line"]), "detail": {"context": b["ctx"], "path": b["path"]}})
-            break
-        if excused:
-            status += f" (one path excused by audited exception: {excused[0]['reason'][:80]})"
-        obl.append({"rule": "G1", "inst": f"{nm}: {status} [{len(e['ctxs'])} contexts]", "ok": ok})
-    for i, x in enumerate(exceptions):
-        if i not in used:
-            findings.append({"rule": "G1", "key": f"G1|stale-exception|{x['fn']}", "msg": f"audited loop exception for {x['fn']} matches nothing any more; remove it",
-                             "loc": "tables/e7_tables.json", "detail": {}})
-    # unanalysed code that receives the parser
-    for ctx in live:
-        for (line, callee) in sorted(A.opaque.get(ctx, ())):
-            findings.append({"rule": "G1", "key": f"G1|opaque|{norm_fn(ctx[0])}|{callee}",
-                             "msg": f"{ctx[0]} hands the parser to {callee}, which the progress analysis cannot see into", "loc": P.site_loc(ctx[0], line), "detail": {}})
-    stats = {"g1_loops": len(agg), "g1_iterator_loops": n_iter, "g1_contexts": len(live), "g1_functions": len({c[0] for c in live}),
-             "g1_primitives": len(A.dom.prims), "g1_token_kinds": A.dom.nk, "g1_exceptions_used": len(used)}
-    for (fn, h), e in sorted(agg.items())[:6]:
-        samples.append({"loop": f"{norm_fn(fn)}#loop{names[(fn, h)]}", "line": e["line"], "contexts": e["ctxs"][:3]})
+                findings.append({"rule": "G1", "key": f"G1|{norm_fn(fn)}|{'>'.join(calls)}",
+                                 "msg": f"{dname} loop {nm} can go round without consuming a lexeme (no bump on the path {' -> '.join(b['path'] or [])}; "
+                                        f"analysed as {b['ctx'][:160]}): on an input that takes this path forever the parser never terminates",
+                                 "loc": P.site_loc(fn, e["line"]), "detail": {"context": b["ctx"], "path": b["path"]}})
+                break
+            if excused:
+                status += f" (one path excused by audited exception: {excused[0]['reason'][:80]})"
+            obl.append({"rule": "G1", "inst": f"[{dname}] {nm}: {status} [{len(e['ctxs'])} contexts]", "ok": ok})
+        for i, x in enumerate(exceptions):
+            if i not in used:
+                findings.append({"rule": "G1", "key": f"G1|stale-exception|{x['fn']}", "msg": f"audited loop exception for {x['fn']} matches nothing any more; remove it",
+                                 "loc": "tables/e7_tables.json", "detail": {}})
+        # unanalysed code that receives the parser
+        for ctx in live:
+            for (line, callee) in sorted(A.opaque.get(ctx, ())):
+                findings.append({"rule": "G1", "key": f"G1|opaque|{norm_fn(ctx[0])}|{callee}",
+                                 "msg": f"{ctx[0]} hands the {dname} to {callee}, which the progress analysis cannot see into", "loc": P.site_loc(ctx[0], line), "detail": {}})
+        pre = "g1_" if dname == "parser" else f"g1_{dname}_"
+        stats.update({pre + "loops": len(agg), pre + "iterator_loops": n_iter, pre + "contexts": len(live), pre + "functions": len({c[0] for c in live}),
+                      pre + "primitives": len(A.dom.prims), pre + "token_kinds": A.dom.nk, pre + "exceptions_used": len(used)})
+        for (fn, h), e in sorted(agg.items())[:4]:
+            samples.append({"loop": f"{norm_fn(fn)}#loop{names[(fn, h)]}", "line": e["line"], "contexts": e["ctxs"][:3]})
     return findings, obl, samples, stats
 
 
